@@ -6,6 +6,7 @@ toolchain go1.23.5
 
 require (
 	github.com/IrineSistiana/mosdns/v5 v5.0.0
+	github.com/klauspost/compress v1.17.11
 	github.com/miekg/dns v1.1.62
 )
 
@@ -17,7 +18,6 @@ require (
 	github.com/go-chi/chi/v5 v5.1.0 // indirect
 	github.com/hashicorp/hcl v1.0.0 // indirect
 	github.com/kardianos/service v1.2.2 // indirect
-	github.com/klauspost/compress v1.17.11 // indirect
 	github.com/magiconair/properties v1.8.9 // indirect
 	github.com/mitchellh/mapstructure v1.5.0 // indirect
 	github.com/munnerz/goautoneg v0.0.0-20191010083416-a7dc8b61c822 // indirect
